@@ -735,7 +735,7 @@ func checkDiskGate(w *World, r *Report) {
 		return
 	}
 	T := w.NamedType("cmd/thermal-recorder", "CPTVFileRecorder")
-	ctor := w.Func("cmd/thermal-recorder", "NewCPTVFileRecorder")
+	ctor := w.ctorOf(T)
 	if T == nil || ctor == nil {
 		r.Unknown("S5", "CPTVFileRecorder", "-", "type or constructor not found")
 		return
